@@ -145,6 +145,7 @@ def run(prop_id, tier, seed, procs, budget=None):
     internal = None
 
     tasks = [(i, plan[i], tier, seed) for i in order]
+    last_progress = time.time()
     nproc = max(1, min(procs, len(tasks)))
     ctx = mp.get_context("fork")
     pool = ctx.Pool(nproc, initializer=_worker_init, initargs=(prop_id,))
@@ -166,6 +167,12 @@ def run(prop_id, tier, seed, procs, budget=None):
             sh = plan[res["_idx"]]
             s = slices[sh["slice"]]
             s["done"] += 1
+            ndone = sum(x["done"] for x in slices.values())
+            if time.time() - last_progress > 60:
+                last_progress = time.time()
+                sys.stderr.write(f"[{prop_id} {tier}] {ndone}/{len(tasks)} shards, {int(time.time() - t0)}s, "
+                                 f"raw violations so far {viol_total}\n")
+                sys.stderr.flush()
             s["inputs"] += res.get("inputs", res.get("evaluations", 0))
             for k in totals:
                 totals[k] += res.get(k, 0)
